@@ -752,6 +752,25 @@ func (e *Engine) invoke(st *State, fv Value, args []Value, callInstr ssa.Value, 
 		if e.intrinsic(st, fn.Fn, args, callInstr, fromDefer) {
 			return
 		}
+		// a method value taken from the (nil) package logger, e.g. er := plog.Panicf
+		if strings.HasSuffix(fn.Fn.Name(), "$bound") && len(fn.Fn.FreeVars) == 1 && isLoggerIface(fn.Fn.FreeVars[0].Type()) {
+			if strings.TrimSuffix(fn.Fn.Name(), "$bound") == "Panicf" {
+				msg := "Panicf"
+				if s, ok := args[0].(string); ok {
+					msg = "Panicf: " + s
+				}
+				e.startPanic(st, msg)
+				return
+			}
+			if !fromDefer {
+				f := e.top(st)
+				if callInstr != nil {
+					f.env[callInstr] = nil
+				}
+				f.ip++
+			}
+			return
+		}
 		e.pushCall(st, fn.Fn, args, fn.Bind, callInstr)
 		e.top(st).fromDefer = fromDefer
 	case *ssa.Builtin:
@@ -1051,6 +1070,13 @@ func (e *Engine) exec(st *State, f *Frame, in ssa.Instruction) {
 				ok = types.Identical(v.T, x.AssertedType)
 				res = v.V
 			}
+		}
+		if !ok && !x.CommaOk && v == nil && isLoggerIface(x.AssertedType) {
+			// the nil check go/ssa puts in front of a method value taken from the
+			// package logger (modelled as a nil interface whose calls are intercepted)
+			f.env[x] = (*Iface)(nil)
+			f.ip++
+			return
 		}
 		if !ok {
 			if x.CommaOk {
